@@ -261,6 +261,18 @@ def recvRes : RecvBranch → (onEmpty : Res) → State → Res
   | .timeout, _, _ => .err .timeout
   | .empty, r, _ => r
 
+/-- `ReceiveFuture::poll` on a finished future: a stream loops back to `Zero`
+    (future.rs:388), re-arming its signal; a plain future panics (`none`).
+    D3: the defective variant kept the old final state. -/
+def rearm (v : Variant) (g : Sig) : Option Sig :=
+  match g.fut with
+  | .done =>
+    if g.isStream then
+      some (if v.streamRearm then { g with fut := .zero, st := .pending, slot := none, waker := none }
+            else { g with fut := .zero })
+    else none
+  | _ => some g
+
 open State in
 /-- The atomic step function.  `none`: the label is not enabled in this state
     (no such waiter, no live handle of the side the call needs, message tag not
@@ -423,15 +435,7 @@ def step (v : Variant) (s : State) : Label → Option (State × Res)
       if !g.alive ∨ g.kind ≠ .async ∨ g.role ≠ .recv then none
       else if g.isStream && g.streamEnded then some (s, .streamEnd)
       else
-        -- `Done` on a stream loops back to `Zero` (future.rs:388); D3: without re-arming the signal
-        let rearmed : Option Sig :=
-          match g.fut with
-          | .done =>
-            if g.isStream then
-              some (if v.streamRearm then { g with fut := .zero, st := .pending, slot := none, waker := none }
-                    else { g with fut := .zero })
-            else none
-          | _ => some g
+        let rearmed : Option Sig := rearm v g
         match rearmed with
         | none => some (s, .panic)
         | some g =>
